@@ -74,7 +74,7 @@ def _node_class(name):
 
             @property
             def label(self):
-                return "L:" + self.node_name
+                return "L:" + str(self.node_name)
 
         _SUB.update(Sub=SubDAGNode, Falsy=FalsyDAGNode, ValueEq=ValueEqDAGNode, Defaults=DefaultsDAGNode)
     return _SUB[name]
@@ -87,7 +87,7 @@ def _model_attrs(case):
     if case.get("cls") == "Defaults" and case.get("kind") == "export" and case.get("mode") not in ("all", "all+dict"):
         for i, a in enumerate(out):
             a.setdefault("step", 7)
-            a["label"] = "L:" + case["names"][i]
+            a["label"] = "L:" + str(case["names"][i])
     return out
 
 
@@ -374,18 +374,18 @@ def _observe_dag(root):
             if id(y) not in seen:
                 seen[id(y)] = y
                 order.append(y)
-    names = [x.node_name for x in order]
-    edges = [[x.node_name, c.node_name] for x in order for c in x.children]
+    names = [_pv(x.node_name) for x in order]       # an integral float name (a frame column with NaN) reads as the int
+    edges = [[_pv(x.node_name), _pv(c.node_name)] for x in order for c in x.children]
     attrs = []
     for x in order:
         a = {}
         for key, v in x.__dict__.items():
-            if key == "name" or key.startswith("_"):
+            if key == "name" or key.startswith("_DAGNode__"):
                 continue
             pv = _pv(v)
             if pv is not None:
                 a[key] = pv
-        attrs.append([x.node_name, sorted(a.items())])
+        attrs.append([_pv(x.node_name), sorted(a.items())])
     return {"code": 0, "names": names, "edges": edges, "attrs": attrs, "_nodes": order}
 
 
@@ -415,7 +415,8 @@ def _snapshot(x):
 
 
 def _graph_key(r):
-    return (r["code"], sorted(r["names"]), sorted(map(tuple, r["edges"])), sorted((nm, tuple(a)) for nm, a in r["attrs"]))
+    return (r["code"], sorted(r["names"], key=repr), sorted(map(tuple, r["edges"]), key=repr),
+            sorted(((nm, tuple(a)) for nm, a in r["attrs"]), key=repr))
 
 
 def run_impl(prop, case):
@@ -533,12 +534,13 @@ def run_impl(prop, case):
                     comp.add(id(y))
                     todo.append(y)
         key = lambda v: repr(v)
-        ref = (sorted(o_list), sorted([e[0], sorted(e[1] or []), e[1] is None, e[2]] for e in o_dict), sorted(o_df, key=key))
+        ref = (sorted(o_list, key=key), sorted(([e[0], sorted(e[1] or [], key=key), e[1] is None, e[2]] for e in o_dict), key=key),
+               sorted(o_df, key=key))
         for other in nodes:
             if id(other) in comp and other is not start:
                 d2 = canon_dict(dag_to_dict(other, **dkw))
-                got = (sorted(list(t) for t in dag_to_list(other)),
-                       sorted([e[0], sorted(e[1] or []), e[1] is None, e[2]] for e in d2),
+                got = (sorted((list(t) for t in dag_to_list(other)), key=key),
+                       sorted(([e[0], sorted(e[1] or [], key=key), e[1] is None, e[2]] for e in d2), key=key),
                        sorted(canon_df(dag_to_dataframe(other, **fkw)), key=key))
                 if got != ref:
                     raise RuntimeError(f"export started from node {nodes.index(other)} differs from export started from node {case['start']}")
@@ -575,8 +577,9 @@ def run_impl(prop, case):
         rdf = rebuild(dataframe_to_dag, f_in, **ckw)
         # export the rebuilt DAGs again with the same options: the same export (None-valued cells folded)
         def fold(e_list, e_dict, e_df):
-            return (sorted(map(tuple, e_list)) if e_list is not None else None,
-                    sorted((e[0], tuple(sorted(e[1] or [])), tuple((k, v) for k, v in e[2] if v is not None)) for e in e_dict)
+            return (sorted(map(tuple, e_list), key=repr) if e_list is not None else None,
+                    sorted(((e[0], tuple(sorted(e[1] or [], key=repr)), tuple((k, v) for k, v in e[2] if v is not None))
+                            for e in e_dict), key=repr)
                     if e_dict is not None else None,
                     sorted(((r_[0], r_[1], tuple(r_[2])) for r_ in e_df), key=repr) if e_df is not None else None)
 
@@ -670,6 +673,16 @@ def cval(v):
     raise TypeError(type(v))
 
 
+def cname(v):
+    """a node name for the model: a str as its code points, an int as a private marker followed by its decimal digits,
+    so that the names 1 and "1" stay different (names are compared by value AND type)"""
+    if isinstance(v, bool) or not isinstance(v, (int, str)):
+        raise TypeError(f"unsupported node name {v!r}")
+    if isinstance(v, int):
+        return "[" + "; ".join(["57344"] + [str(ord(ch)) for ch in str(v)]) + "]%N"
+    return cstr(v)
+
+
 def cattrs(items):
     return clist(cpair(cstr(k), cval(v)) for k, v in items)
 
@@ -681,25 +694,25 @@ def cids(l):
 def cdag(case, links):
     assert len(links) == case["n"]
     return clist(
-        f"DN {cstr(case['names'][i])} {cattrs(sorted(_model_attrs(case)[i].items()))} {cids(links[i][0])} {cids(links[i][1])}"
+        f"DN {cname(case['names'][i])} {cattrs(sorted(_model_attrs(case)[i].items()))} {cids(links[i][0])} {cids(links[i][1])}"
         for i in range(case["n"]))
 
 
 def cspairs(l):
-    return clist(cpair(cstr(a), cstr(b)) for a, b in l)
+    return clist(cpair(cname(a), cname(b)) for a, b in l)
 
 
 def crebuilt(r):
-    return (f"(RB {int(r['code'])} {clist(cstr(s) for s in r['names'])} {cspairs(r['edges'])} "
-            f"{clist(cpair(cstr(nm), cattrs(a)) for nm, a in r['attrs'])})")
+    return (f"(RB {int(r['code'])} {clist(cname(s) for s in r['names'])} {cspairs(r['edges'])} "
+            f"{clist(cpair(cname(nm), cattrs(a)) for nm, a in r['attrs'])})")
 
 
 def cdentries(l):
-    return clist(f"DE {cstr(nm)} {copt(ps, lambda p: clist(cstr(s) for s in p))} {cattrs(a)}" for nm, ps, a in l)
+    return clist(f"DE {cname(nm)} {copt(ps, lambda p: clist(cname(s) for s in p))} {cattrs(a)}" for nm, ps, a in l)
 
 
 def cdfrows(l):
-    return clist(f"DR {cstr(nm)} {copt(par, cstr)} {cattrs(a)}" for nm, par, a in l)
+    return clist(f"DR {cname(nm)} {copt(par, cname)} {cattrs(a)}" for nm, par, a in l)
 
 
 def _emit_snap(case, obs):
@@ -747,6 +760,10 @@ NAME_POOLS = {
     "affix": ["a", "xa", "ab", "b", "bc", "abc", "c", "x", "xab"],
     "special": ["a.b", "(", "a b", "0", "a1", "-", "é", "10", ""],
     "repeated": ["a", "b", "a", "c", "b", "a", "c", "d", "b"],
+    # names that are not str; an int next to its own decimal string (distinct names: 1 != "1")
+    "ints": [1, 2, 3, 10, 0, 7, 12, 5, -1],
+    "int_and_str": ["1", 1, "2", 2, "10", 10, "a", 0, "0"],
+    "mixed": ["a", 1, "b", 2, "1x", 10, "x1", 0, "c"],
 }
 ATTR_KEYS = ["step", "tag", "w", "flag"]
 # attribute names that are affixes / substrings / superstrings of the built-in fields, one-letter names, non-identifiers
@@ -959,6 +976,13 @@ def _attrs(rng, n, style):
         elif style == "names":      # the attribute NAMES are the point here
             for k_ in rng.sample(ODD_KEYS, rng.randint(1, 4)):
                 a[k_] = rng.choice([1, 2, "x", "y"]) if k_ != "N" else rng.randint(0, 2)
+        elif style == "underscore":      # "private looking" names are ordinary attributes when asked for explicitly
+            if rng.random() < 0.85:
+                a["_cost"] = rng.randint(0, 3)
+            if rng.random() < 0.5:
+                a["_x"] = rng.choice(["x", "y"])
+            if rng.random() < 0.4:
+                a["tag"] = rng.choice(["x", "y"])
         elif style == "falsy":      # 0, "", False, an attribute that exists with the value None, missing attributes
             r = rng.random()
             if r < 0.8:
@@ -986,7 +1010,8 @@ def _pick_cls(rng, distinct, falsy_ok):
     return rng.choice(pool)
 
 
-def gen_dag(rng, nmax=7, nmin=2, pools=("distinct", "distinct", "affix", "special", "repeated"), attr_style="none",
+def gen_dag(rng, nmax=7, nmin=2, pools=("distinct", "distinct", "affix", "special", "repeated", "ints", "int_and_str",
+                                         "int_and_str", "mixed"), attr_style="none",
             with_del=True, max_checkpoints=2):
     n = rng.randint(nmin, nmax)
     shape = rng.choice(["sparse", "mixed", "mixed", "dense", "dense", "chain", "fanin", "fanout", "diamond", "diamond",
@@ -1035,6 +1060,13 @@ def all_small_dags(nmax):
 
 
 def _mode(rng, attr_style, attrs=None):
+    if attr_style == "underscore":
+        if rng.random() < 0.2:
+            return "all"          # describe() leaves the underscore names out: only `tag` is listed
+        keys = [k for k in ("_cost", "_x", "tag") if rng.random() < 0.8] or ["_cost"]
+        rng.shuffle(keys)
+        ren = {"_cost": "cost", "_x": "_x2", "tag": "tag"}
+        return [[k, (ren[k] if rng.random() < 0.4 else k)] for k in keys]
     if attr_style == "names":
         if rng.random() < 0.6:
             return "all"
@@ -1346,8 +1378,9 @@ def generate(prop, rng, tier):
     else:
         yield from _exhaustive(prop, rng, 3, 2)
     for i in range(count):
-        attr_style = rng.choice(["total", "total", "partial_str", "partial_int", "falsy", "falsy", "names", "names", "none"])
-        d = gen_dag(rng, nmax=6, pools=("distinct", "distinct", "affix", "special"), attr_style=attr_style)
+        attr_style = rng.choice(["total", "total", "partial_str", "partial_int", "falsy", "falsy", "names", "names", "underscore", "underscore", "none"])
+        # (an int next to its own decimal string is left to C16: dataframe_to_dag compares names as strings, see partial_clauses)
+        d = gen_dag(rng, nmax=6, pools=("distinct", "distinct", "affix", "special", "ints", "mixed"), attr_style=attr_style)
         c = _export_case(rng, d, attr_style)
         yield "export/" + attr_style + "/" + c["stratum"], c
     for i in range(count - (150 if tier == "quick" else 0)):
@@ -1503,7 +1536,8 @@ def rule(prop):
                 "object shared by several nodes, the caller's list mutated afterwards), with all queries run at up to two "
                 "intermediate checkpoints and at the end (each snapshot compared with the model on the links of that moment): "
                 "every acyclic edge set on <= 3 (quick) / <= 4 (thorough) "
-                "nodes in several insertion orders + random shapes sparse/mixed/dense/chain/fan-in/fan-out/diamond x name pools "
+                "nodes in several insertion orders + node names str or int incl. an int next to its own decimal string "
+                "(1 and '1' are distinct names; compared by value and type) + random shapes sparse/mixed/dense/chain/fan-in/fan-out/diamond x name pools "
                 "distinct/affix/special/repeated; observed from every start node and every ordered pair; "
                 "plus DAGNode.from_dict with parents / children lists of existing nodes; node class DAGNode or a user subclass (plain, "
                 "class defaults + property, value equality by name); children handed over as list / tuple / set / dict view or a "
@@ -1515,7 +1549,8 @@ def rule(prop):
                 "non-trivial = >= 3 nodes and >= 2 edges; distinct by canonical JSON hash")
     return ("export cases: the same DAG families (every entry point; node class / node_type DAGNode, a plain subclass, a subclass "
             "with falsy childless instances, value equality by name, class-level default + property resolved by get_attr) with attribute "
-            "assignments total / partial / none / falsy (0, '', False, explicit None) / odd attribute NAMES (one letter, affixes and "
+            "assignments total / partial / none / falsy (0, '', False, explicit None) / underscore-prefixed names asked for through "
+            "an attr_dict (ordinary attributes there; left out by all_attrs) / odd attribute NAMES (one letter, affixes and "
             "substrings and superstrings of name / parents / children / path, blanks and other non-identifier characters, under "
             "all_attrs and as attr_dict keys and targets), any start node, an attribute selection "
             "(all_attrs, all_attrs together with an attr_dict, or an attr_dict with renamed non-identifier keys), default and "
@@ -1560,12 +1595,16 @@ def partial_clauses(prop):
         "attribute key order are compared as multisets; column dtypes, the frame index and the column order are not compared; "
         "which node a constructor returns and the parents/children ORDER of the rebuilt DAG are not compared (names, edge set, "
         "attributes, node class are); a refusal is any exception",
+        "node names are str or int (compared by value and type; an integral float read back from a frame counts as the int); "
+        "an int next to its own decimal string (1 and '1') is exercised under C16 only: on the unchanged library "
+        "dataframe_to_dag refuses such a frame when the two nodes carry different attributes (its duplicate check compares "
+        "names as strings) — reported",
         "export cases use distinct node names (the name-keyed code cannot reproduce a DAG with repeated names; such DAGs are "
         "exercised under C16 only); the single-node DAG (no edge) exports to nothing, as documented, and is outside the theorems",
         "not exercised: ASSERTIONS switched off (the cycle refusal lives in the guarded setter checks), attribute values other "
         "than int / str / bool / None (floats, containers), attribute_cols naming a strict subset of the columns, an attribute "
         "exported under the very key used for the name / parent column or the parent key (or literally 'name', 'parent', "
-        "'parents', 'children'), attribute names starting with '_' (excluded by design), dag_to_dot, polars frames, exports of DAGs with more than 7 nodes",
+        "'parents', 'children'), dag_to_dot, polars frames, exports of DAGs with more than 7 nodes",
         "checked inside the harness rather than in Coq: exports started from every node of the component equal the export from "
         "the case's start node (as multisets), exporting twice gives the same result, the source DAG (links and attributes) is "
         "unchanged, rebuilt nodes are instances of the requested node_type, every constructor leaves the object it was given "
